@@ -5,3 +5,45 @@ claim("C07", "model_checking",
       "Trusted: TLC, the abstraction of payload bytes to variants, the harness' deep structural rendering of results. Exhaustive for 3-4 parties and the listed round shapes; CMP and n>=5 are sampled.",
       "TLC model checking of Handler.tla/HandlerLocal.tla + replay of all enumerated delivery orders on the real handler + trace validation",
       "DESIGN.md §3.1, §3.2, §5 C07")
+
+claim("C18", "model_checking",
+      "Pool.tla models the caller and W workers at exactly the synchronisation points of pkg/pool (unbuffered channels as joint steps). TLC checks exhaustively (W<=3, up to 3 consecutive Parallelize/Search calls) that every call returns complete results, no worker is ever left blocked, and - liveness - every call returns and all workers become idle again. Every behaviour TLC emits (all paths for the small configurations, thousands simulated beyond) is then replayed step by step on the REAL pool through verif yield hooks that park the goroutines; after each step the labels of the real goroutines must equal the model's, and at the end results must be exact and all W workers must take a task simultaneously. An ungated stress of consecutive instantaneous calls follows.",
+      "Trusted: TLC; the yield hooks mark the synchronisation points faithfully (a change that adds a new blocking point between hooks is seen only by the final predicates and the stress). Exhaustive within W<=3 / K<=3 / 3 calls.",
+      "TLC model checking of Pool.tla (safety + liveness) + gated replay of TLC behaviours on the real pool through yield hooks",
+      "DESIGN.md §3.3, §5 C18")
+
+claim("C10", "exploration",
+      "ZkCases.tla holds the transcribed structure of the 15 proof systems (public / commitment / response fields, range-checked responses, Fiat-Shamir input list, which equation mentions which field); TLC checks structural invariants (no unbound public or commitment field, every response in an equation) and enumerates the case lattice system x witness lattice point x perturbation with the expected verdict. Every case is replayed on the real pkg/zk/* code with fixed keys: honest proofs for boundary witnesses must verify; proofs with any public input, context, commitment or response substituted, or a response out of range, must not; the Fiat-Shamir challenge is re-derived independently from the transcribed list.",
+      "TLC is an enumerator plus structural checker here: soundness of the proof systems is not model checked. Trusted: the transcription of the structures (cross-checked by reflection against the Go types), the fixed Paillier/Pedersen keys.",
+      "TLC-enumerated case lattice from a transcribed structure spec (ZkCases.tla) + replay of every case on the real provers/verifiers",
+      "DESIGN.md §5 C10")
+
+claim("C11", "model_checking",
+      "Nonce.tla transcribes the FROST hedged nonce derivation and the BIP-340 nonce derivation over an injective abstract hash and checks NoReuse over all sequences of 2-3 signing attempts whose contexts differ in message, signer set, session id, variant or share under a constant / repeating / honest RNG; each enumerated sequence is replayed on the real FROST round 1 (through a real handler) and on taproot.SecretKey.Sign with crypto/rand.Reader replaced by the prescribed source, and the equality pattern of the published commitments must equal the model's prediction in both directions; BIP-340 R values are additionally compared byte-exactly with an independent transcription.",
+      "Trusted: TLC; the hash is modelled as injective; replacing crypto/rand.Reader really controls all entropy (confirmed in every run by the 'identical context + constant RNG => identical commitments' direction).",
+      "TLC model checking of Nonce.tla + replay of every enumerated context sequence on the real signing code with a substituted RNG",
+      "DESIGN.md §5 C11")
+
+claim("C12", "model_checking",
+      "Paillier.tla / MtA.tla are exact Paillier and MtA over tiny moduli (N in {15,33,35,77,161}): TLC checks Dec(Enc)=id on the whole symmetric range including endpoints, refusal outside, Add/Mul exact iff in range, recovered randomness, Validate accepts exactly units below N^2, alpha+beta=a*b over the integers, and prints the complete tables plus a symbolic boundary lattice with expected classes. The real package is run on the same tiny keys (CRT and plain) and must reproduce EVERY table entry; the symbolic lattice is instantiated on real 2048-bit keys and compared with an independent math/big Paillier; mta.ProveAffG/ProveAffP are checked over the scalar lattice.",
+      "Trusted: TLC; the independent math/big Paillier in the driver. Exhaustive on the tiny keys, boundary lattice at real size.",
+      "TLC model checking of exact small-modulus Paillier/MtA + exhaustive table equality against the real package + boundary lattice on real keys",
+      "DESIGN.md §5 C12")
+
+claim("C13", "exploration",
+      "OTAlg.tla checks the defining relations of the OT stack exactly at small parameters (transpose bit order, q_j = t_j xor c_j*Delta, carry-less accumulate, monochrome check, gadget encoding, share law over Z_7/Z_11) and OTFlow.tla models the message flows of random OT, correlated-OT setup and multiplication with an adversary altering one field of one message, deriving the allowed outcome of each case. Every printed case (scalar lattice x choice pattern x setup reuse x tampering) is replayed on the real internal/ot at real size with independent math/big and bit-level oracles: pads, q/t/Delta relation (read from unexported fields), extended-OT consistency, shares summing to the product; a tampered run must end in an error at the checking side or a correct product.",
+      "The small-parameter algebra is a design check; detection power comes from the real-size replay. Trusted: TLC, the independent oracles in the driver.",
+      "TLC model checking of OTAlg.tla/OTFlow.tla + replay of every enumerated (input, tampering) case on the real OT code",
+      "DESIGN.md §5 C13")
+
+claim("C16", "exploration",
+      "SigVerify.tla transcribes BIP-340 verification and signing rules, ECDSA verification on the full nonce point, x-only public keys and the Ethereum export as decision procedures over abstract value classes; TLC enumerates every path with the verdict the standard prescribes and checks accept-iff-conforming. For every path a concrete input is built with an independent secp256k1/ECDSA/BIP-340 implementation (math/big), classified by that oracle into the same path, and given to the real routine, whose verdict must equal the prescribed one; BIP-340 test vectors, byte-exact signing, 65-byte low-s export with key recovery are known-answer checks.",
+      "Trusted: TLC, the independent oracle package (cross-tested against the published BIP-340 vectors).",
+      "TLC-enumerated decision paths (SigVerify.tla) + one concrete oracle-built input per path run on the real primitives",
+      "DESIGN.md §5 C16")
+
+claim("C19", "model_checking",
+      "Framing.tla specifies the transcript framing '(' len(domain) domain len(data) data ')' after the CMP-BLAKE prefix; TLC checks, for all item sequences within the bound and 14 adversarial relations (boundary shifts, merge/split, type swap, permutation, nesting...), that the encoding is injective (a parser is a left inverse) and rejects four classic wrong framings as controls; it prints byte-exact vectors. The real hash must produce blake3(spec bytes) for every vector - so the code's framing IS the specified injective one - and rich real types under the same relations must never collide. Commit.tla enumerates commitment openings and perturbations with expected verdicts, replayed on the real Commit/Decommit/Validate.",
+      "Trusted: TLC; BLAKE3 collision resistance is assumed. Exhaustive within <=3 items / data <=2 bytes over a small alphabet; rich types sampled by relation.",
+      "TLC model checking of Framing.tla/Commit.tla + byte-exact vector conformance and collision search on the real transcript hash",
+      "DESIGN.md §5 C19")
